@@ -450,6 +450,9 @@ func c19Run(c *fw.Ctx) {
 		}
 	}
 	c.Share(8, func() { exploreSched(c, c19HubFullScenario(c)) })
+	for _, sc := range c19LifeScenarios(c) {
+		c.Share(8, func() { exploreSched(c, sc) })
+	}
 	specs := c19Specs()
 	for i, sp := range specs {
 		if sp.ID == "G5-both-two-sessions" && !c.Thorough() {
@@ -473,6 +476,12 @@ func c19Replay(c *fw.Ctx, raw json.RawMessage) {
 	if sc := c19HubFullScenario(c); sc.ID == cas.Scenario {
 		replaySched(c, sc, raw)
 		return
+	}
+	for _, sc := range c19LifeScenarios(c) {
+		if sc.ID == cas.Scenario {
+			replaySched(c, sc, raw)
+			return
+		}
 	}
 	for _, sp := range c19Specs() {
 		if sp.ID == cas.Scenario {
